@@ -149,7 +149,7 @@ type rsRec struct {
 	startStep    int
 	liveBefore   *control.ControlPlane
 	planes       []*control.ControlPlane
-	tried        bool // a construction was attempted
+	tried        bool   // a construction was attempted
 	essFail      string // an operation the reload cannot do without failed (as observed at the fake)
 	servedNew    bool
 	hasOutcome   bool
@@ -168,13 +168,15 @@ type rsHarness struct {
 	plan *rsPlan
 	dir  string
 
-	code byte
-	msg  string
-	hist []rsProg
+	code        byte
+	msg         string
+	hist        []rsProg
+	gets        []int // steps at which dae read the progress cell
+	lastBusyFor *rsSig
 
-	sigs   []*rsSig
-	recs   []*rsRec
-	cur    *rsRec
+	sigs     []*rsSig
+	recs     []*rsRec
+	cur      *rsRec
 	nSig     int
 	nProc    int
 	nBusy    int
@@ -186,15 +188,15 @@ type rsHarness struct {
 	cfgPort   uint16
 	cfgMarker time.Duration
 
-	started  bool
-	running  bool // workload phase: environment events may fire
-	termSent bool
-	runDone  bool
-	runErr   error
+	started    bool
+	running    bool // workload phase: environment events may fire
+	termSent   bool
+	runDone    bool
+	runErr     error
 	cliBlocked bool
 	tainted    bool // more than one generation was live when a reload began: identity checks are off
-	abort    bool // a duplicate (already reported) rule fired: stop this run quietly
-	probed   map[string]bool
+	abort      bool // a duplicate (already reported) rule fired: stop this run quietly
+	probed     map[string]bool
 }
 
 // Reporting discipline. A rule is reported (s.Failf, the run ends, the tape is
@@ -230,7 +232,7 @@ var rsReplayRule = func() func() string {
 
 // rules after which the model can carry on
 func rsContinuable(rule string) bool {
-	return strings.HasPrefix(rule, "busy-report-missing@") || strings.HasPrefix(rule, "accept-before-retired@") || rule == "progress-wedged@Busy"
+	return strings.HasPrefix(rule, "busy-report-missing@") || strings.HasPrefix(rule, "accept-before-retired@") || strings.HasPrefix(rule, "progress-wedged@Busy")
 }
 
 // failf reports a violation. It returns true when the run may simply go on
@@ -336,6 +338,7 @@ func rsCodeName(c byte) string {
 // onProgress observes every write of the progress cell (the repo's own seam
 // setRunSignalProgress). It is where requests are matched with their answers.
 func (h *rsHarness) onProgress(code byte, msg string) {
+	msg = strings.ReplaceAll(msg, h.dir, "$CFGDIR") // the scratch path contains the pid
 	h.hist = append(h.hist, rsProg{h.s.Step, code, msg})
 	h.code, h.msg = code, msg
 	h.s.Notef("progress := %s %q", rsCodeName(code), msg)
@@ -397,6 +400,7 @@ func (h *rsHarness) onProgress(code byte, msg string) {
 			return
 		}
 		g.answered, g.answer = true, "busy"
+		h.lastBusyFor = g
 		h.s.Probe("reload.busy-reported")
 	case code == consts.ReloadError || (code == consts.ReloadDone && msg == "OK"):
 		r := h.cur
@@ -424,7 +428,10 @@ func (h *rsHarness) Plan(op string, c *control.ControlPlane, l *control.Listener
 	T := h.s.T
 	var p control.VerifPlan
 	delay := func(w ...int) time.Duration {
-		return []time.Duration{0, time.Millisecond, 50 * time.Millisecond, 2 * time.Second, 20 * time.Second}[T.Pick(w...)]
+		// deliberately "odd" durations: two timers of one select must never expire at the
+		// same simulated instant (the Go runtime would then pick a case at random); the
+		// repo's own timers are 5 s ticks, 10 s and 45 s measured from the request
+		return []time.Duration{0, 1003 * time.Microsecond, 50070 * time.Microsecond, 2011 * time.Millisecond, 20130 * time.Millisecond}[T.Pick(w...)]
 	}
 	r := h.cur
 	fire := func(stage, kind string) {
@@ -447,6 +454,9 @@ func (h *rsHarness) Plan(op string, c *control.ControlPlane, l *control.Listener
 	switch op {
 	case "construct", "construct-prepared":
 		p.Delay = delay(4, 3, 3, 2, 1)
+		if p.Delay == 0 {
+			p.Delay = 7 * time.Microsecond // a build is never instantaneous (keeps request-relative timers off the 5 s grid)
+		}
 		if des("build") && !r.faultUsed {
 			if h.plan.variant == 1 {
 				p.Hang = true
@@ -476,7 +486,7 @@ func (h *rsHarness) Plan(op string, c *control.ControlPlane, l *control.Listener
 	case "close":
 		p.Delay = delay(5, 3, 2, 1)
 		if d := h.retireFault(c); d != nil {
-			p.Delay = []time.Duration{5 * time.Second, 40 * time.Second, 0}[h.plan.variant]
+			p.Delay = []time.Duration{5017 * time.Millisecond, 40190 * time.Millisecond, 0}[h.plan.variant]
 			p.Err = errors.New("injected: old control plane close did not finish cleanly")
 			d.faultFired = "retire"
 			h.s.Fault("retire-close-slow-error")
@@ -490,11 +500,11 @@ func (h *rsHarness) Plan(op string, c *control.ControlPlane, l *control.Listener
 			p.N = 3
 			switch h.plan.variant {
 			case 0:
-				p.After = 8 * time.Second
+				p.After = 8023 * time.Millisecond
 			case 1:
 				p.Hang = true
 			default:
-				p.After = 2 * time.Second
+				p.After = 2011 * time.Millisecond
 			}
 			d.faultFired = "retire"
 			h.s.Fault("retire-sessions-slow-drain")
@@ -696,7 +706,10 @@ func (h *rsHarness) runUntil(done func() bool, simBudget time.Duration) bool {
 			continue
 		}
 		if !s.StepOnce(false, 0) {
-			s.StepOnce(true, 0)
+			// nothing can run and no event is enabled: jump to the next timer that
+			// wakes a task (no tape draw: a zeroed tape must not crawl in microseconds)
+			s.Step++
+			s.Sleep(time.Minute)
 		}
 	}
 	return !h.stopped() && done()
@@ -773,7 +786,20 @@ func (h *rsHarness) checkIdle(where string) bool {
 		return false
 	}
 	if h.code != consts.ReloadDone && h.code != consts.ReloadError {
-		if !h.failf("progress-wedged@"+rsCodeName(h.code), "%s: dae is idle but the progress file still says %s %q, so `dae reload` refuses to send a new request until something else rewrites the file (history: %s)", where, rsCodeName(h.code), h.msg, h.histSince(0)) {
+		class := rsCodeName(h.code)
+		if g := h.lastBusyFor; h.code == consts.ReloadBusy && g != nil {
+			// did dae look at the progress cell (to clear a stale busy report) between the
+			// arrival of the refused request and the busy write? then the clearing raced
+			// with the report; otherwise nothing ever tried to clear it
+			class += "-never-cleared"
+			last := h.hist[len(h.hist)-1].step
+			for _, st := range h.gets {
+				if st >= g.step && st <= last {
+					class = "Busy-raced-clear"
+				}
+			}
+		}
+		if !h.failf("progress-wedged@"+class, "%s: dae is idle but the progress file still says %s %q, so `dae reload` refuses to send a new request until something else rewrites the file (history: %s)", where, rsCodeName(h.code), h.msg, h.histSince(0)) {
 			return false
 		}
 		h.cliBlocked = true // the operator falls back to a raw signal
@@ -942,6 +968,7 @@ func rsScenario(s *verifsim.Sim) {
 	}
 	getRunSignalProgress = func() (byte, string, error) {
 		verifsim.Yield("progress.get")
+		h.gets = append(h.gets, h.s.Step)
 		return h.code, h.msg, nil
 	}
 	s.Invariant = func() {
@@ -1039,6 +1066,9 @@ func rsScenario(s *verifsim.Sim) {
 		return
 	}
 	h.finish(true)
+	if os.Getenv("VERIF_C20_DEBUGFAIL") != "" {
+		s.Failf("debug", "forced failure to obtain a logged replay file")
+	}
 }
 
 // finish lets the reload worker end (it lives until process exit by design) and,
@@ -1085,7 +1115,7 @@ func TestSimC20(t *testing.T) {
 		}
 	}()
 	verifsim.Main(t, verifsim.Engine{
-		Prop: "C20", Name: "reload", MaxSteps: 30000, Scenario: rsScenario, Reset: rsReset,
+		Prop: "C20", Name: "reload", MaxSteps: 8000, Scenario: rsScenario, Reset: rsReset,
 		Real: []string{
 			"cmd.Runner.Run: signal loop, reload worker with all failure branches, staged and full hand-off, serve-ready wait, shutdown (cmd/run.go, instrumented at every sync operation)",
 			"cmd/reload_manager.go: admission flags, pending hand-off, retirement, pending release (instrumented)",
